@@ -284,7 +284,10 @@ func (r *recorder) hook(d *nsqd.DiskQueue, label string) {
 	if label == "w_write" {
 		ev["id"] = r.m.N
 	}
-	fs := readFS(r.dir)
+	var fs fsState
+	if r.lvlB || r.crash {
+		fs = readFS(r.dir)
+	}
 	if r.lvlB {
 		st := d.VerifState()
 		ev["st"] = []int64{st.Depth, st.ReadFileNum, st.ReadPos, st.WriteFileNum, st.WritePos, st.NextReadFileNum, st.NextReadPos, b2i(st.NeedSync)}
@@ -471,8 +474,8 @@ func TestDQ(t *testing.T) {
 	defer progress.Close()
 	// queue directories live on tmpfs when available: the queue fsyncs on every sync
 	work := filepath.Join(out, "dqwork")
-	if st, err := os.Stat("/dev/shm"); err == nil && st.IsDir() {
-		if d, err := ioutil.TempDir("/dev/shm", "verif-dq-"); err == nil {
+	if st, err := os.Stat(hx.ShmBase()); err == nil && st.IsDir() {
+		if d, err := ioutil.TempDir(hx.ShmBase(), "verif-dq-"); err == nil {
 			work = d
 		}
 	}
